@@ -130,6 +130,13 @@ func runHostOnce(sc *Scenario) *HostRun {
 	if res.Trace == nil {
 		res.Trace = &Trace{}
 	}
+	if td := os.Getenv("VERIF_TRACE_DIR"); td != "" {
+		os.MkdirAll(td, 0o755)
+		tb, _ := json.MarshalIndent(res.Trace, "", " ")
+		os.WriteFile(filepath.Join(td, fmt.Sprintf("trace-%03d.json", n)), tb, 0o644)
+		os.WriteFile(filepath.Join(td, fmt.Sprintf("stderr-%03d.txt", n)), []byte(res.Stderr+"\n"+res.Dump), 0o644)
+		os.WriteFile(filepath.Join(td, fmt.Sprintf("scenario-%03d.json", n)), b, 0o644)
+	}
 	switch {
 	case strings.Contains(res.Stderr, "VERIF-INFRA") || strings.Contains(res.Stderr, "Runtime API Server failed to listen"):
 		res.Infra = "runtime api port: " + lastLines(res.Stderr, 3)
